@@ -962,3 +962,38 @@ Proof.
   repeat split;
     [apply N20_translate|apply N02_translate|apply a00_translate].
 Qed.
+
+(* ---------------------------------------------------------------------- *)
+(* non-vacuity: concrete inputs meeting the hypotheses                     *)
+(* ---------------------------------------------------------------------- *)
+Example ex_dedup :
+  remove_duplicates [(1, 1); (1, 1); (2, 2); (2, 2); (3, 1); (1, 1); (1, 1)]
+  = [(1, 1); (2, 2); (3, 1)].
+Proof. vm_compute. reflexivity. Qed.
+
+Example ex_dedup_all_equal : remove_duplicates [(3, 4); (3, 4); (3, 4)] = [].
+Proof. vm_compute. reflexivity. Qed.
+
+(* a 4 x 2 rectangle: a00 <> 0, N20, N02 <> 0, squared inertia ratio 4 *)
+Definition ex_rect : list pt := [(0, 0); (4, 0); (4, 2); (0, 2)].
+
+Example ex_rect_moments :
+  a00 ex_rect <> 0 /\ N20 ex_rect <> 0 /\ N02 ex_rect <> 0 /\
+  oq_eq (inert_ratio_sq ex_rect) (Some (Qmake (4) 1)) /\
+  oq_eq (inert_ratio_sq (swap_xy ex_rect)) (Some (Qmake (1) 4)) /\
+  oq_eq (inert_ratio_sq (translate 100 (-7) ex_rect)) (Some (Qmake (4) 1)).
+Proof. vm_compute. repeat split; discriminate. Qed.
+
+(* a cylinder of radius 2 and height 3: pi/3 * 36 = pi r^2 h *)
+Example ex_cylinder :
+  vol_revolve [0; 2; 2; 0] [0; 0; 3; 3] 1 = Some 36 /\
+  vol_revolve (rev [0; 2; 2; 0]) (rev [0; 0; 3; 3]) 1 = Some (-36) /\
+  vol_revolve [0; 4; 4; 0] [0; 0; 6; 6] 1 = Some (8 * 36) /\
+  vol_revolve [0; 2; 2; 0] [0; 0; 3; 3] 2 = Some (8 * 36).
+Proof. vm_compute. repeat split; reflexivity. Qed.
+
+Example ex_get_volume :
+  get_volume 8 16 8 [(0, 0); (0, 2); (4, 2); (4, 0)] = Some (2 * 512 * 12) /\
+  get_volume 8 16 8 (rev [(0, 0); (0, 2); (4, 2); (4, 0)])
+  = Some (- (2 * 512 * 12)).
+Proof. vm_compute. split; reflexivity. Qed.
